@@ -291,5 +291,28 @@ def r_no_module_state(ctx):
     ctx.floor("R-NO-MODULE-STATE", "module-level statements", n, 100)
 
 
-RULES = [r_name_injective, r_order_flow, r_global_use, r_no_module_state, driver.r_option_table, driver.r_solver_readonly,
+def r_order_prefix(ctx):
+    """declaration order: a list that is created outside a loop over a declaration-ordered collection, filled inside it and
+    read as a whole while that loop is still running holds the contributions of the elements declared so far only; a term
+    built from it depends on the order of declaration (the same model declared in another order gets another encoding)"""
+    n = 0
+    found = {}
+    entries = [(e.label(), e) for e in all_entries(ctx)]
+    for label, entry in entries:
+        for run in runs_of(ctx, entry):
+            n += 1
+            for ev in run.events_of("prefix-read"):
+                where = ev.site.func if ev.site.func else label
+                found.setdefault((where, show(norm(ev.data["loop"][3]))[:120]), (show(norm(ev.data["list"]))[:200], ev.site))
+    for (where, over), (what, site) in sorted(found.items()):
+        ctx.violation("R-ORDER-PREFIX", where, f"accumulator read inside the loop over {over}",
+                      f"a list filled across the iterations of the loop over {over} is read as a whole inside that loop ({what}): "
+                      f"each element sees the contributions of the elements declared before it, so the encoding changes with the "
+                      f"declaration order", f"processscheduler/{site.module}.py")
+    ctx.floor("R-ORDER-PREFIX", "paths scanned", n, 400)
+    if not found:
+        ctx.ok("R-ORDER-PREFIX", f"no accumulator is read inside the loop that fills it ({n} paths)")
+
+
+RULES = [r_order_prefix, r_name_injective, r_order_flow, r_global_use, r_no_module_state, driver.r_option_table, driver.r_solver_readonly,
          lambda ctx: resource_constraints.r_loopvar(ctx, bases=(), solver=True), solution_rules.r_marker]
